@@ -61,6 +61,8 @@ pub struct BusState {
     pub calls: Vec<(String, String, u32, u32)>,
     pub serial: u32,
     pub hello_done: bool,
+    /// bytes written right before / right after the reply to the next GetNameOwner
+    pub lookup_script: Option<(Vec<u8>, Vec<u8>)>,
 }
 
 pub type Bus = Arc<Mutex<BusState>>;
@@ -243,11 +245,15 @@ pub async fn run_bus(w: World, raw: RawEnd, bus: Bus, cfg: BusCfg) {
                 }
             }
             "GetNameOwner" => {
+                let script = bus.lock().unwrap().lookup_script.take();
+                let (pre, post) = script.unwrap_or_default();
+                out.extend(pre);
                 let o = bus.lock().unwrap().owners.get(&s0).cloned();
                 match o {
                     Some(u) => out.extend(ret(&[Val::str(&u)]).encode()),
                     None => out.extend(err("org.freedesktop.DBus.Error.NameHasNoOwner", "no owner").encode()),
                 }
+                out.extend(post);
             }
             "NameHasOwner" => {
                 let o = bus.lock().unwrap().owners.contains_key(&s0);
